@@ -50,12 +50,16 @@ MIN_COUNTERS = {
     'quick': {'sequences_compared': 8000, 'interleaved_pairs_compared': 8000,
               'snapshots_compared': 8000, 'values_compared': 80000,
               'random_leaf_runs': 400, 'infinite_expressions': 800,
+              'ended_streams_polled_again': 4000, 'reset_streams_compared': 4000,
+              'class_Placep': 300,
               'concurrent_seeded_streams_compared': 400,
               'concurrent_seeded_values_compared': 20000},
     'thorough': {'sequences_compared': 500000,
                  'interleaved_pairs_compared': 500000,
                  'snapshots_compared': 500000, 'values_compared': 5000000,
                  'random_leaf_runs': 20000, 'infinite_expressions': 50000,
+                 'ended_streams_polled_again': 200000,
+                 'reset_streams_compared': 200000, 'class_Placep': 10000,
                  'concurrent_seeded_streams_compared': 10000,
                  'concurrent_seeded_values_compared': 500000},
 }
@@ -82,7 +86,7 @@ def plan(tier, seed):
 
 def detail(node):
     name = node[0]
-    if name in ('Pseq', 'Pser', 'Place'):
+    if name in ('Pseq', 'Pser', 'Place', 'Placep'):
         return 'offset' if node[3] else 'no-offset'
     if name == 'Pslide':
         return 'wrap' if node[5] else 'nowrap'
@@ -284,6 +288,7 @@ def run_shard(spec, acc):
         if how == 'all' and not exp_ended:
             how = 'next'
         acc.count('driver_' + how)
+        stage = 'fresh'
         try:
             with cb.time_limit(10):
                 pat = cb.build(node)
@@ -302,6 +307,10 @@ def run_shard(spec, acc):
                         bn, bk, bexp, bgot, bexc = b
                         ctx = ''
                     key = seq_key(bn, bk, ctx)
+                    if bk in ('value', 'long', 'hang'):
+                        rc = _resumer_inside(bn, leaves)
+                        if rc:
+                            key = f'C13/stream-resumes-after-end/{rc}'
                     w = {'case': i, 'expression': text, 'blamed': gen.show(bn),
                          'mismatch': bk, 'model': bexp[:24], 'library': bgot[:24],
                          'driver': how}
@@ -331,7 +340,31 @@ def run_shard(spec, acc):
                             {'case': i, 'expression': text, 'fresh': got[:24],
                              'stream1': o1[:24], 'stream2': o2[:24],
                              'tb': short_tb(iexc) if iexc else None})
+                # -- an ended stream stays ended until reset() ---------------
+                stage = 'after-end'
+                if exc is None and exp_ended and not kind_bad:
+                    k_more = rng.randint(1, 3)
+                    first, post, second, aexc = cb.after_end(pat, N + 2, k_more)
+                    acc.count('ended_streams_polled_again')
+                    if aexc is not None:
+                        acc.violation(
+                            f'C13/stream-after-end/{node[0]}/raises-{type(aexc).__name__}',
+                            {'case': i, 'expression': text, 'tb': short_tb(aexc)})
+                    elif post is not None:
+                        if post:
+                            acc.violation(
+                                f'C13/stream-resumes-after-end/{_resume_blame(node, leaves, k_more) or node[0]}',
+                                {'case': i, 'expression': text, 'sequence': first[:24],
+                                 'values_after_the_end': post[:24],
+                                 'extra_polls': k_more})
+                        acc.count('reset_streams_compared')
+                        if compare(first, True, second, True, None):
+                            acc.violation(
+                                f'C13/stream-after-reset-differs/{node[0]}',
+                                {'case': i, 'expression': text, 'first': first[:24],
+                                 'after_reset': second[:24]})
                 # -- immutability -------------------------------------------
+                stage = 'snapshot'
                 snap1 = cb.snapshot(pat)
                 acc.count('snapshots_compared')
                 if snap0 != snap1:
@@ -339,6 +372,21 @@ def run_shard(spec, acc):
                     acc.violation(f'C13/pattern-mutated/{cls}/{attr}',
                                   {'case': i, 'expression': text})
         except cb.RealTimeout:
+            if stage == 'after-end':
+                # polling an ended stream again did not return: it resumed
+                # into an unproductive branch
+                # into an unproductive branch - or an operand that is pulled
+                # before the exhausted one is unproductive from here on, which
+                # is legitimate: only a demonstrated resumption is a verdict
+                rc = _resume_blame(node, leaves) or _resumer_inside(node, leaves)
+                if rc:
+                    acc.violation(f'C13/stream-resumes-after-end/{rc}',
+                                  {'case': i, 'expression': text,
+                                   'note': 'polling the ended stream again did '
+                                           'not return within 10 s'})
+                else:
+                    acc.count('after_end_poll_unproductive_operand')
+                continue
             b = blame(node, leaves, limit=3)
             if b is not None:
                 # e.g. Stream.all() on a stream that should have ended
@@ -358,6 +406,54 @@ def run_shard(spec, acc):
         if acc.want_sample() and nontrivial and 30 < len(text) < 200:
             acc.sample({'case': i, 'expression': text, 'model_first_values': exp[:12],
                         'ends': exp_ended, 'driver': how})
+
+
+RESUME_POLLS = 80
+
+
+def _resume_blame(node, leaves, k=RESUME_POLLS):
+    """Smallest sub-expression whose own stream gives values again after it
+    has ended (post-order; only sub-expressions that end)."""
+    from vf import model_patterns as mp, c13_build as cb
+    for sub in mp.subnodes(node):
+        try:
+            exp, ended = mp.take(sub, N, leaves=leaves)
+        except Exception:
+            continue
+        if not ended:
+            continue
+        c = _resume_blame(sub, leaves, k)
+        if c:
+            return c
+    try:
+        with cb.time_limit(2):
+            first, post, second, exc = cb.after_end(cb.build(node), N + 2, k)
+        if post:
+            return node[0]
+    except (cb.RealTimeout, Exception):
+        pass
+    return None
+
+
+def _resumer_inside(node, leaves):
+    """Class of a finite sub-expression of node (not node itself) whose stream
+    resumes after its end - patterns that poll their children again (Placep,
+    operator streams) inherit that child's defect."""
+    from vf import model_patterns as mp
+    for sub in mp.subnodes(node):
+        try:
+            exp, ended = mp.take(sub, N, leaves=leaves)
+        except Exception:
+            continue
+        if ended:
+            c = _resume_blame(sub, leaves)
+            if c:
+                return c
+        else:
+            c = _resumer_inside(sub, leaves)
+            if c:
+                return c
+    return None
 
 
 def _indep_blame(node, rng):
